@@ -337,7 +337,25 @@ Definition check_corr (c : case) : bool :=
   end.
 
 (* ------------------------------------------------------------------------------------------------------------------ *)
-(* specification *)
+(* specification
+
+   Independence (round-5 audit).  [check_spec] never runs a rewrite of the model ([run_op] / [run_vop] / [run_iop] and the
+   functions they call — unroll_child, unroll_children_op, encapsulate, split_one_child, merge_single_child, cleanup,
+   flatten_and_balance, make_compatible, roll_constant_waveforms, to_waveform, smallest_factor_ge, their volatile / indexed
+   versions — occur in [check_corr] only).  What it shares with Model.v are the definitions the property is STATED in:
+     - the meaning of a described program: [pieces], [wf_pieces], [duration], [wf_dur], [pdur] and the decision procedure
+       [pieces_equivb] for [Spec.same_play] ([Props.C06_spec_oracle_sound]; its side condition, no negative piece
+       duration, is evaluated below as [nonneg_pieces]);
+     - plain predicates on a tree that spell out the postconditions: [depth], [balanced] (Node.depth / is_balanced
+       recomputed from the described tree AND compared with what the implementation reports), [leaves_ok] (every leaf
+       waveform >= min_len samples and a multiple of the quantum), [Spec.no_empty_below], [is_leaf], [has_wf], [has_meas],
+       [mergeable] / [vmergeable] (the precondition of _merge_single_child = the postcondition of
+       cleanup('merge_single_child'): exactly one child, and a measured parent only over a count-1 child / a non-volatile
+       pair), [vol_count], [idx_ok];
+     - arithmetic helpers: [q_is_int], [q_int], [py_index] (Python's list index rule), [assoc].
+   A change of one of these would change what the property SAYS, not how the model computes; none of them is a rewrite. *)
+
+Definition nonneg_pieces (l : list piece) : bool := forallb (fun p => Qle_bool 0 (pdur p)) l.
 
 Definition samples_of (sr : Q) (t : tree) : Q := (duration t * sr)%Q.
 
@@ -384,6 +402,7 @@ Definition spec_step (vol : bool) (input : tree) (path : list nat) (o : opk) (im
   match impl with
   | ObsOk after dur dp bal =>
       pieces_equivb (pieces after) (pieces input)
+      && nonneg_pieces (pieces after) && nonneg_pieces (pieces input)
       && Qeq_bool (duration after) (duration input)
       && Qeq_bool dur (duration input)
       && match o, node_at path input, node_at path after with
@@ -393,6 +412,7 @@ Definition spec_step (vol : bool) (input : tree) (path : list nat) (o : opk) (im
          end
   | ObsErr e after =>
       err_allowed vol input path o e && pieces_equivb (pieces after) (pieces input)
+      && nonneg_pieces (pieces after) && nonneg_pieces (pieces input)
       && Qeq_bool (duration after) (duration input)
   end.
 
@@ -466,7 +486,8 @@ Definition check_spec (c : case) : bool :=
       spec_step false input path o impl && dec_samples_ok ramps input sr before && dec_samples_ok ramps input sr after
   | CToWf input impl =>
       match impl with
-      | Ok x => pieces_equivb (wf_pieces x) (pieces input) && Qeq_bool (wf_dur x) (duration input)
+      | Ok x => pieces_equivb (wf_pieces x) (pieces input) && nonneg_pieces (wf_pieces x) && nonneg_pieces (pieces input)
+                && Qeq_bool (wf_dur x) (duration input)
       | Err _ => false
       end
   | CSfg n m impl =>
